@@ -170,18 +170,20 @@ PROPS['C06'] = {
         {'name': 'dna_complement', 'crate': 'alphabets', 'harness': 'dna_complement_all_bytes', 'timeout': 1200, 'obligation': 'dna::complement on all 256 bytes: Watson-Crick pairs, N fixed, lower-case twins, non-letters fixed - this is the contract of the complement stub of unit C06/fmd (complement(a) == compb(a) on $ACGTNacgtn)'},
     ],
     'oracle': 'C06',
-    'decided': ['"extending a bi-interval by one symbol forwards or backwards yields the bi-interval of the extended string (empty iff it does not occur)" is a POSTCONDITION of the real FMDIndex::backward_ext and forward_ext, and its base case of init_interval_with: for every text t over $ACGTNacgtn that is closed under reverse complement, every sorted suffix array pos of t and every FM index whose occ/less count the BWT of (t, pos), if (lower, lower_rev, size) is the exact bi-interval of a non-empty word w (rows lower.. are precisely the suffixes that start with w, rows lower_rev.. precisely those that start with revcomp(w)) then the result is the exact bi-interval of a.w (resp. w.a); size 0 iff the extended word does not occur',
+    'decided': ['FMDIndex::smems(pattern, i, l), l >= 1, on the real code: the result is EXACTLY the set of supermaximal exact matches covering pattern position i of length >= l - (nothing else) every reported (interval, start, len) has start <= i < start+len, len >= l, occurs, cannot be extended to the left (start == 0 or pattern[start-1..start+len] occurs nowhere) nor to the right, and interval is its exact bi-interval: the forward rows are precisely the suffixes starting with the match, the reverse rows precisely those starting with its reverse complement; (everything) every pattern substring with these properties is reported. No index, underflow or overflow failure (incl. the isize round trips and the degenerate case pattern[i] not in the text)',
+                'FMDIndex::all_smems(pattern, l) on the real code: every reported triple is a supermaximal match of length >= l with its exact bi-interval, and every supermaximal match of length >= l is reported at least once (the skip to the furthest end loses nothing: a skipped match would be contained in a reported one); the loop terminates',
+                '"extending a bi-interval by one symbol forwards or backwards yields the bi-interval of the extended string (empty iff it does not occur)" is a POSTCONDITION of the real FMDIndex::backward_ext and forward_ext, and its base case of init_interval_with: for every text t over $ACGTNacgtn that is closed under reverse complement, every sorted suffix array pos of t and every FM index whose occ/less count the BWT of (t, pos), if (lower, lower_rev, size) is the exact bi-interval of a non-empty word w then the result is the exact bi-interval of a.w (resp. w.a); size 0 iff the extended word does not occur',
                 'lemma_sym_multi: the closure hypothesis sym(t) holds for every text concat(s $ revcomp(s) $ for s in S) - the texts the property quantifies over',
-                'the supporting theory in the same unit (LF mapping, backward-search step on multi-sentinel byte texts, refinement of an interval by the next symbol, permutation counting, mirror bijection) is proved from first principles: no axiom',
-                'FMDIndex::backward_ext: the returned bi-interval is exactly the bi-interval recurrence (k\' = C[a] + Occ(k-1, a); s\' = Occ(k+s-1, a) - Occ(k-1, a); l\' = l + number of interval rows whose symbol precedes a in the complement order $TGCNAtgcna), no arithmetic failure, match_size + 1',
+                'the supporting theory in the same unit (LF mapping, backward-search step on multi-sentinel byte texts, refinement of an interval by the next symbol, permutation counting, mirror bijection, occurrence-extension chains of the work lists) is proved from first principles: no axiom',
+                'FMDIndex::backward_ext: the returned bi-interval is exactly the bi-interval recurrence (k\' = C[a] + Occ(k-1, a); s\' = Occ(k+s-1, a) - Occ(k-1, a); l\' = l + number of interval rows whose symbol precedes a in the complement order $TGCNAtgcna), no arithmetic failure (also for an empty interval not starting at row 0), match_size + 1',
                 'forward_ext == backward_ext of the swapped interval with the complemented symbol, swapped back', 'init_interval_with, BiInterval::{forward, revcomp, swapped}',
                 'dna::complement on all 256 bytes (complete Kani proof over the real table): the contract of the complement stub'],
-    'undecided': ['smems / all_smems (supermaximality over two sweeps with Vec swaps): NOT under contract, bounded stand-in only',
-                  'that the real FMIndex handed to FMDIndex counts the BWT of a sorted suffix array (hypothesis fmd_of of the postconditions; C04 proves it of the real Occ/Less tables, C03/SA-IS sortedness is not proved)',
-                  'init_interval, From<FMIndex> (alphabet check)'],
-    'trusted': ['abstract FM index stub (occ/less return socc/sless; the hypothesis fmd_of ties socc/sless to the counts C04 proves of the real tables)', 'dna::complement stub - contract discharged by the Kani harness above'],
-    'level_text': 'Verus proves, on the real backward_ext / forward_ext / init_interval_with, that extending an exact bi-interval by one symbol yields the exact bi-interval of the extended word on every reverse-complement-closed DNA text (theory proved in the same unit, no axiom), and that texts s$revcomp(s)$... are such texts; complement table by a complete Kani proof. SMEM enumeration (smems, all_smems) is not decided.',
-    'level_note': 'Level other (partial): extension steps proved as stated by the property; smems/all_smems bounded stand-in only. Trusted: FM index stub under hypothesis fmd_of, Verus/Z3, Kani/CBMC.',
+    'undecided': ['that the FMIndex handed to FMDIndex counts the BWT of a SORTED suffix array of a text of the documented form: this is the hypothesis fmd_of of every postcondition (C04 proves the real Occ/Less/bwt tables count; SA-IS sortedness, C03, is not proved; FMDIndex::from only checks the alphabet)',
+                  'init_interval, From<FMIndex> (alphabet check)', 'patterns with symbols outside ACGTNacgtn (precondition dna_word), l == 0'],
+    'trusted': ['abstract FM index stub (occ/less return socc/sless; the hypothesis fmd_of ties socc/sless to the counts C04 proves of the real tables)', 'dna::complement stub - contract discharged by the Kani harness above',
+                'std: slice::reverse (assume_specification: elements in reverse order), derived Copy/Clone of BiInterval (field-wise), Vec::append / mem::swap / Vec::clear as specified by vstd', 'pattern.len() < 2^47 (precondition; slices are below isize::MAX anyway)'],
+    'level_text': 'Verus proves, on the real smems / all_smems / backward_ext / forward_ext / init_interval_with, the property as stated: smems returns exactly the supermaximal exact matches covering i of length >= l with exact forward and reverse-complement intervals, all_smems every supermaximal match at least once and nothing else, extension steps yield exact bi-intervals - for every reverse-complement-closed DNA text, every sorted suffix array of it and every index counting its BWT (hypothesis fmd_of); the mathematics (LF mapping, bi-interval theorem, closure of s$revcomp(s)$ texts) is machine-checked in the same unit without axioms; complement table by a complete Kani proof.',
+    'level_note': 'Level other: unbounded proof of every clause GIVEN that the index counts the BWT of a sorted suffix array (SA-IS sortedness is C03 and not proved). Trusted: FM index stub under hypothesis fmd_of, slice::reverse spec, derived Copy, Verus/Z3, Kani/CBMC.',
 }
 
 PROPS['C01'] = {
